@@ -163,6 +163,8 @@ def _do_job(job, fd, vtty, termios, fcntl, array) -> dict:
     before_raw = termios.tcgetattr(fd)
     before = codec.to_record(before_raw)
     op = dict(vtty.NO_OP, **scn["opx"])
+    if op["name"] == "history" and op["more"] == "always":
+        op["more"] = scn["inner"]
     backend = RealBackend(fd, scn.get("pred") or {"stop": 0, "raiseAt": 0})
     rec = vtty.Recorder(backend, codec, job.get("fault"), quiet=("termsize",) if op["name"] == "draw" else ())
     vtty.install(rec, fd)
